@@ -320,8 +320,11 @@ class KwCanon(ast.NodeTransformer):
 
     def add(self, name: str, f, skip_first=True):
         a = f.args
-        if a.vararg or a.kwarg or a.posonlyargs:
+        if a.vararg or a.posonlyargs:
             return self
+        self.open_kw = getattr(self, "open_kw", set())
+        if a.kwarg:
+            self.open_kw.add(name)         # further keywords are collected by **kwargs: kept as written
         ps = [x.arg for x in a.args][1 if skip_first else 0:]
         dfl = dict(zip(reversed(ps), reversed(a.defaults)))
         npos = len(ps)
@@ -341,7 +344,7 @@ class KwCanon(ast.NodeTransformer):
                 return n
             b = dict(zip(ps, n.args))
             for k in n.keywords:
-                if k.arg in b or k.arg not in ps:
+                if k.arg in b or (k.arg not in ps and cn not in getattr(self, "open_kw", ())):
                     return n
                 b[k.arg] = k.value
             for p_ in ps:
@@ -393,26 +396,55 @@ def model_gradient_expected(repo, model, fn_src, kc):
 OTHER = "<any other value>"
 
 
-def _lit_test(e, var: str):
-    """a test on the string-valued variable `var` -> (set of literals, True if the test holds exactly on that set / False if exactly off it) or None"""
+def lit_test_any(e, consts=None):
+    """a test comparing some expression with literals -> (subject expression, set of literals, True if the test holds exactly on that set / False if exactly
+    off it) or None. `consts`: module-level names bound to literal dicts / tuples / sets (membership in them is membership in their keys / elements)."""
+    consts = consts or {}
     if isinstance(e, ast.UnaryOp) and isinstance(e.op, ast.Not):
-        r = _lit_test(e.operand, var)
-        return None if r is None else (r[0], not r[1])
+        r = lit_test_any(e.operand, consts)
+        return None if r is None else (r[0], r[1], not r[2])
     if isinstance(e, ast.Compare) and len(e.ops) == 1:
         l, r, op = e.left, e.comparators[0], e.ops[0]
-        def isvar(x):
-            p = path_of(x)
-            return p == var or (isinstance(x, ast.Call) and isinstance(x.func, ast.Attribute) and x.func.attr in ("lower", "strip") and path_of(x.func.value) == var and False)
+
         def lit(x):
             return isinstance(x, ast.Constant) and isinstance(x.value, (str, int, bool, type(None)))
         if isinstance(op, (ast.Eq, ast.NotEq, ast.Is, ast.IsNot)):
-            if isvar(l) and lit(r):
-                return ({r.value}, isinstance(op, (ast.Eq, ast.Is)))
-            if isvar(r) and lit(l):
-                return ({l.value}, isinstance(op, (ast.Eq, ast.Is)))
-        if isinstance(op, (ast.In, ast.NotIn)) and isvar(l) and isinstance(r, (ast.Tuple, ast.List, ast.Set)) and all(lit(x) for x in r.elts):
-            return ({x.value for x in r.elts}, isinstance(op, ast.In))
+            if lit(r) and not lit(l):
+                return (l, {r.value}, isinstance(op, (ast.Eq, ast.Is)))
+            if lit(l) and not lit(r):
+                return (r, {l.value}, isinstance(op, (ast.Eq, ast.Is)))
+        if isinstance(op, (ast.In, ast.NotIn)) and not lit(l):
+            if isinstance(r, (ast.Tuple, ast.List, ast.Set)) and r.elts and all(lit(x) for x in r.elts):
+                return (l, {x.value for x in r.elts}, isinstance(op, ast.In))
+            if isinstance(r, ast.Dict) and r.keys and all(k is not None and lit(k) for k in r.keys):
+                return (l, {k.value for k in r.keys}, isinstance(op, ast.In))
+            if isinstance(r, ast.Name) and r.id in consts:
+                return (l, set(consts[r.id]), isinstance(op, ast.In))
+            if isinstance(r, ast.Call) and isinstance(r.func, ast.Attribute) and r.func.attr == "keys" and not r.args and isinstance(r.func.value, ast.Name) \
+                    and r.func.value.id in consts:
+                return (l, set(consts[r.func.value.id]), isinstance(op, ast.In))
     return None
+
+
+def literal_collections(tree) -> Dict[str, set]:
+    """module-level NAME = {literal: ...} / (literal, ...) / [..] / {..}, bound once: name -> set of keys / elements"""
+    out, count = {}, {}
+    for s in tree.body:
+        if isinstance(s, ast.Assign) and len(s.targets) == 1 and isinstance(s.targets[0], ast.Name):
+            nm, v = s.targets[0].id, s.value
+            count[nm] = count.get(nm, 0) + 1
+            if isinstance(v, ast.Dict) and v.keys and all(k is not None and isinstance(k, ast.Constant) for k in v.keys):
+                out[nm] = {k.value for k in v.keys}
+            elif isinstance(v, (ast.Tuple, ast.List, ast.Set)) and v.elts and all(isinstance(k, ast.Constant) for k in v.elts):
+                out[nm] = {k.value for k in v.elts}
+    return {k: v for k, v in out.items() if count.get(k) == 1}
+
+
+def _lit_test(e, var: str):
+    r = lit_test_any(e)
+    if r is None or path_of(r[0]) != var:
+        return None
+    return (r[1], r[2])
 
 
 def case_domain(g, var: str):
